@@ -323,6 +323,36 @@ fn gen_c04(r: &mut Rng) -> (J, Prog) {
     if with_recs {
         add_some_variable_probes(r, &mut p);
     }
+    // blocks that select the same values, one after the other, the first with a variable of its
+    // own that shadows an outer one, the second using the outer one (each block is a scope)
+    if r.chance(1, 3) {
+        let ty = match doc::at(&d, &[doc::Seg::Key("Resources".into())]) {
+            Some(J::Map(res)) => res.iter().find_map(|(_, v)| if let J::Map(m) = v { m.iter().find_map(|(k, t)| if k == "Type" { if let J::Str(t) = t { Some(t.clone()) } else { None } } else { None }) } else { None }),
+            _ => None,
+        };
+        p.lets.push(Let { name: "shv".into(), val: Arg::Lit(J::Str("outer".into())) });
+        let cl = |lit: &str| Line { alts: vec![Clause::Cmp(Cmp { not: false, q: Query { some: false, parts: vec![Part::Var("shv".into())] }, op: Op::Eq, opnot: false, rhs: Some(rules::Rhs::Lit(J::Str(lit.into()))), msg: None })] };
+        let first = Body { lets: vec![Let { name: "shv".into(), val: Arg::Lit(J::Str("inner".into())) }], lines: vec![cl("inner")] };
+        let second = Body { lets: vec![], lines: vec![cl("outer")] };
+        let other = Line { alts: vec![Clause::Cmp(Cmp { not: false, q: Query { some: false, parts: vec![Part::Key("zz_not_there".into())] }, op: Op::Exists, opnot: true, rhs: None, msg: None })] };
+        let (b1, b2) = match ty {
+            Some(ty) => (Clause::Type { ty: ty.clone(), when: vec![], body: first }, Clause::Type { ty, when: vec![], body: second }),
+            None => {
+                // not a template: query blocks over the first top-level container
+                let key = match &d {
+                    J::Map(kv) => kv.iter().find(|(_, v)| matches!(v, J::Map(m) if !m.is_empty()) || matches!(v, J::List(l) if !l.is_empty())).map(|(k, _)| k.clone()),
+                    _ => None,
+                };
+                let q = Query { some: false, parts: vec![Part::Key(key.unwrap_or_else(|| "zz_none".into()))] };
+                (Clause::Block { q: q.clone(), not_empty: false, body: first }, Clause::Block { q, not_empty: false, body: second })
+            }
+        };
+        let mut lines = vec![Line { alts: vec![b1] }, Line { alts: vec![b2] }];
+        if r.chance(1, 2) {
+            lines.push(other);
+        }
+        p.rules.push(Rule { name: "probe_shadow".into(), when: vec![], body: Body { lets: vec![], lines } });
+    }
     // the documented idiom "one name, several definitions with mutually exclusive guards":
     // exactly one definition can be non-SKIP, so the named status is order independent
     if r.chance(1, 3) && !p.rules.is_empty() {
@@ -831,6 +861,14 @@ fn make_var_heavy(r: &mut Rng, p: &mut Prog, d: &J) {
         let mut two = vec![call(&k1, 1, false), call(&k2, 1, false)];
         r.shuffle(&mut two);
         p.rules.push(Rule { name: "probe_call_d".into(), when: vec![], body: Body { lets: vec![], lines: two } });
+        // caller variables that carry the NAMES of the callee's parameters, passed crosswise
+        if r.chance(1, 2) {
+            p.lets.push(Let { name: "pa".into(), val: Arg::Lit(J::Int(1)) });
+            p.lets.push(Let { name: "pb".into(), val: Arg::Query(Query { some: false, parts: vec![Part::Key(k1.clone())] }) });
+            let v = |n: &str| Arg::Query(Query { some: false, parts: vec![Part::Var(n.to_string())] });
+            p.rules.push(Rule { name: "probe_call_x".into(), when: vec![], body: Body { lets: vec![], lines: vec![Line { alts: vec![Clause::Call { not: false, name: "pchk".into(), args: vec![v("pb"), v("pa")], msg: None }] }] } });
+            p.rules.push(Rule { name: "probe_call_y".into(), when: vec![], body: Body { lets: vec![], lines: vec![Line { alts: vec![Clause::Call { not: false, name: "pchk".into(), args: vec![v("pb"), Arg::Lit(J::Int(2))], msg: None }] }] } });
+        }
     }
     // two rules of one name (legal), each with its own rule-level variable of the same
     // name bound to something else; no rule refers to them by name
